@@ -334,6 +334,43 @@ func knownNonNilAt(v ssa.Value, b *ssa.BasicBlock) bool {
 	return false
 }
 
+// knownNilAt: every path into block b passes an edge on which v == nil holds (the mirror of knownNonNilAt). Only pure
+// SSA values are considered (a reloaded variable may have been assigned in between).
+func knownNilAt(v ssa.Value, b *ssa.BasicBlock) bool {
+	for d := b; d != nil; d = d.Idom() {
+		id := d.Idom()
+		if id == nil {
+			break
+		}
+		iff, ok := id.Instrs[len(id.Instrs)-1].(*ssa.If)
+		if !ok || len(d.Preds) != 1 || len(id.Succs) != 2 || id.Succs[0] == id.Succs[1] {
+			continue
+		}
+		bo, ok := iff.Cond.(*ssa.BinOp)
+		if !ok {
+			continue
+		}
+		var other ssa.Value
+		if bo.X == v {
+			other = bo.Y
+		} else if bo.Y == v {
+			other = bo.X
+		} else {
+			continue
+		}
+		if !isNilConst(other) {
+			continue
+		}
+		if bo.Op == token.EQL && id.Succs[0] == d {
+			return true
+		}
+		if bo.Op == token.NEQ && id.Succs[1] == d {
+			return true
+		}
+	}
+	return false
+}
+
 func SuccessExits(fn *ssa.Function) []ssa.Instruction {
 	var out []ssa.Instruction
 	for _, e := range Exits(fn) {
